@@ -68,6 +68,10 @@ struct Seg {
     /// instances >= 2 use their own data dir (<data_dir>/d<k>, key "k") instead of their own
     /// key (<data_dir>, key "k<k>")
     idirs: bool,
+    /// explicit namespace keys of instances 1.. (header keys=<hex>,<hex>,...)
+    keys: Vec<String>,
+    /// construct instances through WALRUS_DATA_DIR + the *_for_key constructor instead of the builder's data_dir
+    envdir: bool,
     data_dir: PathBuf,
     mode: ReadConsistency,
     sched: FsyncSchedule,
@@ -98,6 +102,10 @@ fn parse_sched(s: &str) -> FsyncSchedule {
 impl Seg {
     /// (data dir, key) of instance k (1-based)
     fn place(&self, k: usize) -> (PathBuf, String) {
+        if let Some(key) = self.keys.get(k.max(1) - 1) {
+            let dd = if self.idirs && k > 1 { self.data_dir.join(format!("d{}", k)) } else { self.data_dir.clone() };
+            return (dd, key.clone());
+        }
         if k <= 1 {
             (self.data_dir.clone(), "k".to_string())
         } else if self.idirs {
@@ -118,8 +126,15 @@ impl Seg {
     fn open_k(&mut self, k: usize) -> String {
         let (dd, key) = self.place(k);
         let (mode, sched) = (self.mode, self.sched);
+        let envdir = self.envdir;
         let r = catch_unwind(AssertUnwindSafe(|| {
-            Walrus::builder().data_dir(dd).key(&key).consistency(mode).fsync_schedule(sched).build()
+            if envdir {
+                // the environment path: the data directory is whatever WALRUS_DATA_DIR says at construction time
+                std::env::set_var("WALRUS_DATA_DIR", &dd);
+                Walrus::with_consistency_and_schedule_for_key(&key, mode, sched)
+            } else {
+                Walrus::builder().data_dir(dd).key(&key).consistency(mode).fsync_schedule(sched).build()
+            }
         }));
         match r {
             Ok(Ok(w)) => {
@@ -583,6 +598,8 @@ pub fn seg_main(args: &[String]) {
         others: (1..ninst).map(|_| None).collect(),
         cur: 1,
         idirs: std::env::var("WH_IDIRS").is_ok(),
+        keys: std::env::var("WH_KEYS").ok().map(|v| v.split(',').map(unhex_str).collect()).unwrap_or_default(),
+        envdir: std::env::var("WH_ENVDIR").is_ok(),
         data_dir,
         mode: parse_mode(&args[1]),
         sched: parse_sched(&args[3]),
@@ -769,6 +786,10 @@ pub fn engine_main(base: &str) {
                     extra.push(("WH_IDIRS".into(), "1".into()));
                 } else if kv.strip_prefix("trk=").is_some() {
                     extra.push(("WH_TRK".into(), "1".into()));
+                } else if let Some(v) = kv.strip_prefix("keys=") {
+                    extra.push(("WH_KEYS".into(), v.to_string()));
+                } else if kv.strip_prefix("envdir=").is_some() {
+                    extra.push(("WH_ENVDIR".into(), "1".into()));
                 }
             }
             for kv in &t[2..] {
@@ -860,4 +881,9 @@ pub fn engine_main(base: &str) {
         let _ = std::fs::remove_dir_all(&dir);
     }
     out.flush().unwrap();
+}
+
+fn unhex_str(h: &str) -> String {
+    let b: Vec<u8> = (0..h.len() / 2).filter_map(|i| u8::from_str_radix(&h[2 * i..2 * i + 2], 16).ok()).collect();
+    String::from_utf8_lossy(&b).into_owned()
 }
